@@ -108,6 +108,7 @@ func (fr *FnRun) instr(st *State, in ssa.Instruction, depth int) {
 		fr.slice(st, x)
 	case *ssa.Store:
 		p := fr.ptr(st, x.Addr)
+		fr.checkGuard(st, in, x.Addr, "store")
 		fr.oblige(st, "nil", fr.ordOf(in), Not(p.Nil), nil, "store through pointer "+x.Addr.Name())
 		if p.Nil.IsTrue() || p.Obj == nil {
 			panic(pathStop{})
@@ -236,6 +237,7 @@ func (fr *FnRun) unop(st *State, x *ssa.UnOp) Val {
 	switch x.Op {
 	case token.MUL:
 		p := fr.ptr(st, x.X)
+		fr.checkGuard(st, x, x.X, "load")
 		fr.oblige(st, "nil", fr.ordOf(x), Not(p.Nil), nil, "load through pointer "+x.X.Name())
 		if p.Nil.IsTrue() || p.Obj == nil {
 			panic(pathStop{}) // definitely nil: the obligation above fails if this point is reachable
@@ -1061,4 +1063,50 @@ func (fr *FnRun) fromUnsafe(st *State, v Val, to types.Type) Val {
 	}
 	// *[]T (or *NamedSlice) -> *slice{Data,Len,Cap}  and back
 	return &PtrV{Nil: u.Of.Nil, Obj: u.Of.Obj, Path: u.Of.Path, Elem: pt.Elem(), }
+}
+
+// checkGuard: lock discipline.  An access to a field declared `guarded (T) f by m` must happen while
+// the mutex T.m of the same struct is held (ghost `held` of sync.Mutex, set by Lock, cleared by
+// Unlock).  All accesses being made under the lock is what excludes a data race on the field.
+func (fr *FnRun) checkGuard(st *State, in ssa.Instruction, addr ssa.Value, what string) {
+	ex := fr.ex
+	if len(ex.DB.Guarded) == 0 {
+		return
+	}
+	fa, ok := addr.(*ssa.FieldAddr)
+	if !ok {
+		return
+	}
+	pt, ok := fa.X.Type().Underlying().(*types.Pointer)
+	if !ok {
+		return
+	}
+	lock, ok := ex.DB.Guarded[TypeKey(pt.Elem())+"."+fieldName(fa)]
+	if !ok {
+		return
+	}
+	stt, ok := under(pt.Elem()).(*types.Struct)
+	if !ok {
+		return
+	}
+	base := fr.ptr(st, fa.X)
+	if base.Obj == nil {
+		return
+	}
+	for i := 0; i < stt.NumFields(); i++ {
+		if stt.Field(i).Name() != lock {
+			continue
+		}
+		lp := &PtrV{Nil: tFalse, Obj: base.Obj, Path: appendPath(base.Path, PathElem{Field: i}), Elem: stt.Field(i).Type()}
+		mv, ok := ex.force(st, ex.load(st, lp)).(*StructV)
+		if !ok || mv.Ghost == nil {
+			panic(abortf("guarded field %s: lock %s has no ghost state (declare ghost field held on its type)", fieldName(fa), lock))
+		}
+		held, ok := mv.Ghost["held"].(*Term)
+		if !ok {
+			panic(abortf("guarded field %s: lock %s has no ghost `held`", fieldName(fa), lock))
+		}
+		fr.oblige(st, "guard", fr.ordOf(in), held, nil, what+" of "+fieldName(fa)+" while "+lock+" is held")
+		return
+	}
 }
